@@ -13,7 +13,9 @@ EXTENDS SourceMapOps
 
 CONSTANTS MaxLen,     \* texts of up to this many symbols
           Widths,     \* rune widths
-          NewlineRule \* "le" = the code (index <= newLines[i]); "lt" = off by one (negative config)
+          NewlineRule, \* "le" = the code (index <= newLines[i]); "lt" = off by one (negative config)
+          EntryCopy    \* "same" = the code: the parser works on the caller's text; "append-newline" = the
+                       \* entry point appends a newline to a text that lacks one and parses the copy (negative config)
 
 VARIABLES text, a, b     \* a text and two rune-boundary symbol indices a <= b (0-based, 0..Len)
 vars == <<text, a, b>>
@@ -47,6 +49,15 @@ Init == /\ text \in Texts
 Next == UNCHANGED vars
 Spec == Init /\ [][Next]_vars
 
+\* End of input.  The text the parser works on, and the position it reports when it stops at the
+\* end of that text (errors raised at EOF, Range.To of the last node of the file).  Texts end in a
+\* rune, in a newline or (a CR is a one-byte rune to the algebra) in a CR: all are enumerated.
+EndsInNL(t) == t # <<>> /\ IsNL(t[Len(t)])
+ParserText(t) == IF EntryCopy = "append-newline" /\ ~EndsInNL(t) THEN t \o <<NL>> ELSE t
+EofPosition == PositionAt(ParserText(text), ByteLen(ParserText(text)))
+\* ... is a position of the CALLER's text: inside [0, len] and with its line / column
+EofPositionInInput == /\ EofPosition.idx <= ByteLen(text)
+                      /\ EofPosition = AdvanceAll(Pos(0, 0, 0), text)
 \* PositionAt is the algebra
 PositionIsAdvance == PositionAt(text, ByteOff(text, a)) = AdvanceAll(Pos(0, 0, 0), SubSeq(text, 1, a))
 
@@ -58,4 +69,6 @@ RangeOrdered == /\ From.idx <= To.idx
 RangeInBounds == 0 <= From.idx /\ To.idx <= ByteLen(text)
 \* the range covers exactly the symbols between the two boundaries
 RangeCovers == To = AdvanceAll(From, SubSeq(text, a + 1, b))
+\* a Range from boundary a to the end of what the parser read covers exactly the rest of the caller's text
+LastRangeCoversRest == EofPosition = AdvanceAll(From, SubSeq(text, a + 1, Len(text)))
 =============================================================================
